@@ -15,7 +15,7 @@ are violations.
 """
 import struct
 
-from mc import core, explore
+from mc import core, explore, lap
 from mc.world import World, Monitor
 from mc.pair import DeliveryMonitor, app_send, payload, quiescent
 from mpgameserver.connection import Packet, ConnectionStatus, ConnectionBase, FragmentSender
@@ -473,6 +473,7 @@ def params_list(tier):
 
 def run(tier, seed):
     rep = core.Report()
+    laps = lap.start(tier)
     plist = params_list(tier)
     if seed:
         k = seed % len(plist)
@@ -499,8 +500,12 @@ def run(tier, seed):
             sig = v["sig"]
             rep.add_violation(core.Violation(v["oracle"], sig, {"params": v["params"], "choices": v["choices"], "labels": v["labels"]},
                                              "%s | params=%r deviations=%r" % (v["message"], v["params"], v["labels"])))
+    lap_v, lap_cov = lap.collect(laps, PROPERTY)
+    for v in lap_v:
+        rep.add_violation(v)
     execs = st1.executions + st2.executions
     rep.coverage = {
+        "long_session_part": lap_cov,
         "states": st1.points + st2.points, "transitions": st1.steps + st2.steps,
         "traces_validated_against_impl": execs, "executions": execs,
         "sizes_part": {"configurations": len(sizes_part), "executions": st1.executions, "by_deviations": st1.by_cost, "bound": 1, "capped": st1.capped},
@@ -519,6 +524,8 @@ def run(tier, seed):
 
 
 def replay(witness):
+    if "lap" in witness:
+        return lap.replay(witness, PROPERTY)
     if len(witness["params"]) == 5:
         ch = explore.replay_choices(thread_scenario, _tup(witness["params"]), witness["choices"])
         return [core.Violation(o, s, witness, m) for o, s, m in ch.found]
